@@ -2070,12 +2070,22 @@ func (tb *Table) RemoveDeletedPart() {
 	removeWG.Wait()
 }
 
+// RemoveItemsByDelTsidsFromParts rewrites the parts of the table without the items of delTsids.
+// A part that is being merged cannot be rewritten, and the output of the running merge will
+// hold its items: the walk is then incomplete and says so with an error, so that the caller
+// keeps the deleted tsids for its next run instead of forgetting them while their items are
+// still stored (the dropped series would be back after the next start).
 func (tb *Table) RemoveItemsByDelTsidsFromParts(delTsids *uint64set.Set) error {
 	tb.partsLock.Lock()
 	temp := tb.parts
 	pws := make([]*partWrapper, 0)
+	inMerge := 0
 	for i := 0; i < len(temp); i++ {
-		if temp[i].isInMerge || temp[i].isDeleteTsids {
+		if temp[i].isInMerge {
+			inMerge++
+			continue
+		}
+		if temp[i].isDeleteTsids {
 			continue
 		}
 		temp[i].isDeleteTsids = true
@@ -2090,6 +2100,9 @@ func (tb *Table) RemoveItemsByDelTsidsFromParts(delTsids *uint64set.Set) error {
 		}
 	}
 
+	if inMerge > 0 {
+		return fmt.Errorf("%d parts of %q are being merged: the items of deleted tsids in them are left for the next run", inMerge, tb.path)
+	}
 	return nil
 }
 
